@@ -16,6 +16,10 @@ use std::panic::{catch_unwind, AssertUnwindSafe};
 
 pub struct SimUnwind;
 
+/// `extend_from` is skipped when the target register would grow beyond this (keeps long histories
+/// with repeated self-extension from doubling without bound).
+pub const MAX_ENTRIES: usize = 4096;
+
 pub fn hash_mode_of(name: &str) -> HashMode {
     match name {
         "collide" => HashMode::Collide,
@@ -105,7 +109,11 @@ pub fn apply_real(op: &Op, regs: &mut [Object; REGISTERS], maps: &mut [Option<Co
             }
             Op::ExtendEntries { r, es } => { regs[*r].extend(es.iter().map(|(k, v)| Entry::new(Key::from(k.as_str()), v.build()))); Res::Unit }
             Op::ExtendPairs { r, es } => { regs[*r].extend(es.iter().map(|(k, v)| (Key::from(k.as_str()), v.build()))); Res::Unit }
-            Op::ExtendFrom { r, s } => { let src: Vec<Entry> = regs[*s].entries().to_vec(); regs[*r].extend(src); Res::Unit }
+            Op::ExtendFrom { r, s } => {
+                // bounded: repeated self-extension doubles the object; beyond MAX_ENTRIES the operation is skipped (in the model too)
+                if regs[*r].len() + regs[*s].len() <= MAX_ENTRIES { let src: Vec<Entry> = regs[*s].entries().to_vec(); regs[*r].extend(src); }
+                Res::Unit
+            }
             Op::IterMutSet { r, i, v } => { for (j, (_, slot)) in regs[*r].iter_mut().enumerate() { if j == *i { *slot = v.build(); } } Res::Unit }
             Op::GetMutSet { r, k, pull, v } => {
                 let mut n = 0;
@@ -175,7 +183,7 @@ pub fn apply_model(op: &Op, ms: &mut [M; REGISTERS]) -> Exp {
         Op::Sort { r } => { model::sort(&mut ms[*r]); Exp::Unit }
         Op::FromVec { r, es } | Op::FromIterEntries { r, es } | Op::FromIterPairs { r, es } | Op::FromParse { r, es } => { ms[*r] = es.iter().map(|(k, v)| (k.clone(), v.build())).collect(); Exp::Unit }
         Op::ExtendEntries { r, es } | Op::ExtendPairs { r, es } => { ms[*r].extend(es.iter().map(|(k, v)| (k.clone(), v.build()))); Exp::Unit }
-        Op::ExtendFrom { r, s } => { let src = ms[*s].clone(); ms[*r].extend(src); Exp::Unit }
+        Op::ExtendFrom { r, s } => { if ms[*r].len() + ms[*s].len() <= MAX_ENTRIES { let src = ms[*s].clone(); ms[*r].extend(src); } Exp::Unit }
         Op::IterMutSet { r, i, v } => { if let Some(e) = ms[*r].get_mut(*i) { e.1 = v.build(); } Exp::Unit }
         Op::GetMutSet { r, k, pull, v } => {
             let pos = model::positions(&ms[*r], k);
